@@ -46,12 +46,19 @@ def source_hash():
     return h.hexdigest()[:16]
 
 
+# numba invalidates a cached kernel only when the file that DEFINES it changes, not when a file it calls into changes: the cache
+# directory is keyed by a hash of all sources, and a run during which the sources changed must not leave its kernels behind
+_NUMBA_CACHE = {"hash": None, "dir": None}
+
+
 def setup_numba_cache():
     """Point numba's on-disk cache to a directory keyed by the source hash so an edited source can
     never be served by a stale compiled function. Must be called before numba is imported."""
-    d = os.path.join(VERIF, ".cache", "numba", source_hash())
+    h0 = source_hash()
+    d = os.path.join(VERIF, ".cache", "numba", h0)
     os.makedirs(d, exist_ok=True)
     os.environ["NUMBA_CACHE_DIR"] = d
+    _NUMBA_CACHE["hash"], _NUMBA_CACHE["dir"] = h0, d
     # remove caches of other source versions (disk is limited)
     parent = os.path.dirname(d)
     for other in os.listdir(parent):
@@ -315,6 +322,9 @@ class Check:
             "wall_s": round(time.time() - self.t0, 2),
             "violations": len(self.violations),
         }
+        if _NUMBA_CACHE["hash"] is not None and source_hash() != _NUMBA_CACHE["hash"]:
+            shutil.rmtree(_NUMBA_CACHE["dir"], ignore_errors=True)
+            self.machinery("the sources of /repo changed while the check was running: the verdict is void and the compiled kernels of this run were discarded")
         if self.machinery_errors:
             ev["coverage"]["machinery_errors"] = self.machinery_errors
         # checks that are not about a listed property (growth of the specification) keep their evidence apart
